@@ -187,7 +187,7 @@ func (x *c08Run) modelReadFrame(fr *c08Frame, end xport.End) string {
 
 func c08ValidCode(c uint16) bool {
 	switch {
-	case c >= 1000 && c <= 1003, c >= 1007 && c <= 1011, c >= 3000 && c <= 4999:
+	case c >= 1000 && c <= 1003, c >= 1007 && c <= 1013, c >= 3000 && c <= 4999:
 		return true
 	}
 	return false
@@ -312,7 +312,21 @@ func (x *c08Run) mkFrames(ev int) []c08Frame {
 		return []c08Frame{{wsref.Frame{Fin: true, Opcode: wsref.OpClose, Payload: []byte{0x03}}, 4}}
 	case evCloseBadCode:
 		codes := []uint16{0, 999, 1004, 1005, 1006, 1015, 2999, 5000, 65535}
-		return []c08Frame{{wsref.Frame{Fin: true, Opcode: wsref.OpClose, Payload: wsref.ClosePayload(codes[r.Intn(len(codes))], "x")}, 4}}
+		code := codes[r.Intn(len(codes))]
+		if r.Bool() {
+			// anywhere in the ranges no endpoint may send: below 1000, 1004-1006, 1014-2999, 5000 and above
+			switch r.Intn(4) {
+			case 0:
+				code = uint16(r.Intn(1000))
+			case 1:
+				code = uint16(r.Range(1004, 1006))
+			case 2:
+				code = uint16(r.Range(1014, 2999))
+			default:
+				code = uint16(r.Range(5000, 65535))
+			}
+		}
+		return []c08Frame{{wsref.Frame{Fin: true, Opcode: wsref.OpClose, Payload: wsref.ClosePayload(code, "x")}, 4}}
 	case evCloseBadUTF8:
 		return []c08Frame{{wsref.Frame{Fin: true, Opcode: wsref.OpClose, Payload: append(wsref.ClosePayload(1000, ""), 0xff, 0xfe, 0xc0)}, 4}}
 	case evViolation:
